@@ -48,6 +48,12 @@ _C14_RULES = _MOCK_RULES + [
     [r"24read_exact_volatile_from", 5], [r"21write_all_volatile_to", 5],
 ]
 
+_XEN_RULES = [
+    [r"^mmap\.0", 5], [r"^munmap\.0", 5], [r"cffi10live_count", 5],
+    [r"10mmap_ioctl", 3], [r"17GntDevMapGrantRef3new", 3], [r"from_elem", 3], [r"FamStructWrapper", 3], [r"extend_with", 3],
+    [r"copy_slice_volatile", 9], [r"x17.*check_window", 4],
+]
+
 PROPS = {}
 
 PROPS["C19"] = {
@@ -234,9 +240,13 @@ PROPS["C12"] = {
 PROPS["C15"] = {
     "groups": [
         {"crate": "std", "quick": ["c15::"], "jobs": 6, "mem_gb": 8, "timeout_s": 900, "stubbed": True, "kani_flags": ["--default-unwind", "6"]},
+        # Xen build: flag word validation (all 2^32 words), missing file, non-zero offset, MAP_FIXED, requests per mapping type
+        {"crate": "xen", "quick": ["x15::"], "jobs": 4, "mem_gb": 12, "timeout_s": 1200, "stubbed": True,
+         "kani_flags": ["-Z", "restrict-vtable"], "unwindset": {"default": 1, "rules": _XEN_RULES}},
     ],
     "bounds": "standard build: size, protection, flags word, file offset, file length (lseek model), raw pointer value, guest base all unconstrained; "
-              "mmap may fail; lseek may fail",
+              "mmap may fail; lseek may fail. Xen build: the mapping-type flag word over all 2^32 values (validity predicate; from_range without a file), "
+              "with a file the words 0..=0x10 and 0x80000002; unix flags, file offset, guest address, domain id unconstrained; region size one page",
     "outside": "'byte i of the region is byte offset+i of the file' is the kernel's mmap contract; what is decided is that the library passes exactly "
                "(size, prot, flags, fd, offset) and reports the request back; real descriptors",
     "assumptions": ["cffi.rs models of mmap/munmap/lseek64/close/sysconf/__errno_location are the environment contract; File::from_raw_fd(7) stands for an arbitrary open file"],
